@@ -4,7 +4,7 @@
              of a tag's argument sequence: positional after keyword = error, repeated keyword = error,
              else bind  render(self, context, *positional, **keywords)).
    M-model:  transliteration of
-               node.py:137-156            wsplit        (NodeMeta.wrapper_render: special kwargs -> dict)
+               node.py:137-161            wsplit        (NodeMeta.wrapper_render: special kwargs -> dict)
                template_tag.py:292-327,
                                400-437     vstep/vloop   (the argument loop, shared text of both validators)
                template_tag.py:371-390,
@@ -12,10 +12,11 @@
                                446-461     code_view / code_action   (_validate_params_with_code, fast path)
                template_tag.py:266-289,
                                323, 337-353 sig_view / sig_action    (_validate_params_with_signature)
-               node.py:188                 the final call orig_render(self, context, *args, **kwargs) = py_call
+               node.py:193                 the final call orig_render(self, context, *args, **kwargs) = py_call
              impl_bind = py_call o validator o wsplit o resolve.
-   Two booleans (cfg) switch in the two repairs proposed in notes/fixes/C11-*.patch; `current_cfg` is what
-   /repo does now and is what the correspondence check runs.  Definitions only; proofs in Bind/Proofs.v. *)
+   The model is the code of /repo as it is after the fix commits 3c868d2 (no keyword default for positional-only
+   parameters), 8478320 (repeated non-identifier key refused in wrapper_render) and 81cf028 (name of a
+   positional-only parameter accepted as a key of **kwargs).  Definitions only; proofs in Bind/Proofs.v. *)
 From DJC Require Import Lib.Base.
 
 (* ---------- small dictionary / set helpers over str keys ---------- *)
@@ -146,23 +147,17 @@ Definition py_bind (sv cv : N) (F : sig) (call : list targ) : res binding :=
   py_bind_entries sv cv F (resolve call).
 
 (* ---------- M: the implementation ---------- *)
-Record cfg := mkCfg { fix_posonly_kw : bool;   (* notes/fixes/C11-posonly-name-as-kwarg.patch applied *)
-                      fix_dup_special : bool   (* notes/fixes/C11-duplicate-special-key.patch applied *) }.
-Definition current_cfg : cfg := mkCfg false false.
-Definition fixed_cfg : cfg := mkCfg true true.
-
 Section Impl.
-  Variable c : cfg.
   Variable special : str -> bool.   (* `not key.isidentifier() or keyword.iskeyword(key)` *)
 
-  (* node.py:137-156.  inv = invalid_kwargs (a dict), seen = did_see_special_kwarg.
+  (* node.py:137-161.  inv = invalid_kwargs (a dict), seen = did_see_special_kwarg.
      Result: (resolved_params_without_invalid_kwargs, invalid_kwargs). *)
   Fixpoint wsplit (l : list entry) (seen : bool) (inv : kwl) : res (list entry * kwl) :=
     match l with
     | [] => Ok ([], inv)
     | (Some k, v) :: r =>
         if special k then
-          if fix_dup_special c && kmem k inv then Err TypeError
+          if kmem k inv then Err TypeError                 (* node.py:148 `if key in invalid_kwargs` *)
           else wsplit r true (dset k v inv)
         else match wsplit r seen inv with
              | Ok (reg, i) => Ok ((Some k, v) :: reg, i)
@@ -181,7 +176,7 @@ Section Impl.
                            w_pc : nat;              (* positional_count / max_positional_index *)
                            w_va : bool; w_vk : bool;
                            w_valid : str -> bool;   (* keyword-name test of the loop *)
-                           w_ponames : list str     (* positional-only names (used by the repair only) *) }.
+                           w_ponames : list str     (* posonly_names / param_names[:posonly_count] *) }.
   Record vstate := mkV { v_seen : bool; v_used : list str; v_args : list N; v_kwargs : kwl; v_idx : nat }.
   Definition vinit : vstate := mkV false [] [] [] 0.
 
@@ -204,7 +199,8 @@ Section Impl.
           | Ok u => Ok (mkV false u (v_args s ++ [v]) (v_kwargs s) (S (v_idx s)))
           end
     | (Some k, v) =>
-        let exempt := fix_posonly_kw c && w_vk w && smem k (w_ponames w) && negb (kmem k (v_kwargs s)) in
+        (* template_tag.py:324-326 / 435-437: the name of a positional-only parameter may still be a key of **kwargs *)
+        let exempt := w_vk w && smem k (w_ponames w) && negb (kmem k (v_kwargs s)) in
         if smem k (v_used s) && negb exempt then Err TypeError
         else if negb (w_valid w k) then Err TypeError
         else Ok (mkV true (k :: v_used s) (v_args s) (dset k v (v_kwargs s)) (v_idx s))
@@ -355,18 +351,6 @@ Definition wfb (special : str -> bool) (F : sig) : bool :=
   (2 <=? length (pos_params F)) && nodup_str (all_names F) && dsuffix (pos_params F)
   && forallb (fun x => negb (special x)) (all_names F).
 
-(* ---------- the two input classes in which the current code departs from Python ---------- *)
-(* a keyword names a positional-only parameter that already got a positional argument, and **kwargs exists *)
-Definition clash_posonly (F : sig) (es : list entry) : bool :=
-  is_some (s_vk F)
-  && existsb (fun kv => smem (fst kv) (firstn (length (entries_pos es)) (skipn 2 (map pname (s_po F)))))
-             (entries_kw es).
-(* the same non-identifier / reserved-word key twice *)
-Definition clash_special (special : str -> bool) (es : list entry) : bool :=
-  has_dup_keys (filter (fun kv => special (fst kv)) (entries_kw es)).
-Definition guard (c : cfg) (special : str -> bool) (F : sig) (es : list entry) : bool :=
-  (fix_posonly_kw c || negb (clash_posonly F es)) && (fix_dup_special c || negb (clash_special special es)).
-
 (* ---------- concrete `special` for ASCII keys: not isidentifier() or iskeyword() ---------- *)
 Definition is_alpha_ (c : N) : bool :=
   ((65 <=? c) && (c <=? 90) || (97 <=? c) && (c <=? 122) || (c =? 95))%N.
@@ -432,29 +416,27 @@ Definition check_pybind (x : pybind_case) : bool :=
   let '(F, call, obs) := x in
   wfb py_special F && res_eqb binding_eqb errk_eqb (py_bind SV CV F call) obs.
 
-(* (ii) the tag against impl_bind (current code, fast path): (signature, call, what the tag did) *)
-Definition check_tag_cfg (c : cfg) (x : pybind_case) : bool :=
-  let '(F, call, obs) := x in
-  res_eqb binding_eqb errk_sim (impl_bind c py_special true SV CV F call) obs.
-Definition check_tag := check_tag_cfg current_cfg.
+(* (ii) the tag against impl_bind: (fast path?, signature, call, what the tag did) *)
+Definition tag_case := (bool * sig * list targ * res binding)%type.
+Definition check_tag (x : tag_case) : bool :=
+  let '(use_code, F, call, obs) := x in
+  res_eqb binding_eqb errk_sim (impl_bind py_special use_code SV CV F call) obs.
 
 (* (iii) one validation path (fast path?) followed by the real call of render() with what it returned:
    (fast path?, signature, params, extra_kwargs, what the call did) *)
 Definition validate_case := (bool * sig * list (option str * N) * list (str * N) * res binding)%type.
-Definition check_validate_cfg (c : cfg) (x : validate_case) : bool :=
+Definition check_validate (x : validate_case) : bool :=
   let '(use_code, F, ps, extra, obs) := x in
   res_eqb binding_eqb errk_sim
-          (match validate_params c use_code F ps extra with
+          (match validate_params use_code F ps extra with
            | Err e => Err e
            | Ok (args, kwargs) => py_call F (SV :: CV :: args) kwargs
            end) obs.
-Definition check_validate := check_validate_cfg current_cfg.
 
-(* (i)+(ii) on one literal: (signature, call, what Python did, what the tag did) *)
-Definition both_case := (sig * list targ * res binding * res binding)%type.
-Definition check_both_cfg (c : cfg) (x : both_case) : bool :=
-  let '(F, call, p, t) := x in check_pybind (F, call, p) && check_tag_cfg c (F, call, t).
-Definition check_both := check_both_cfg current_cfg.
+(* (i)+(ii) on one literal: (fast path?, signature, call, what Python did, what the tag did) *)
+Definition both_case := (bool * sig * list targ * res binding * res binding)%type.
+Definition check_both (x : both_case) : bool :=
+  let '(use_code, F, call, p, t) := x in check_pybind (F, call, p) && check_tag (use_code, F, call, t).
 
 (* ---------- the relation the theorems are stated with ---------- *)
 (* **kwargs is a dictionary: equal as a mapping, insertion order is not part of the claim *)
